@@ -5,7 +5,7 @@ import hirq, anchors, absx, sem, driver
 EXPLANATION = ("L1 reply senders are owned only by the driver's two routing maps, the request tuple and the LdapOp::Search payload; the "
                "driver loop takes the driver by value, so every exit drops them; no mem::forget / ManuallyDrop / Box::leak / into_raw in "
                "the workspace; L2 in the driver loop the closed-channel / end-of-stream alternative of the request, misc and response "
-               "arms leaves the loop, a stream error and a failed socket write return Err; L3 on the caller side every send / recv / await "
+               "arms leaves the loop, a stream error and a failed socket write return Err, and an arm awaits nothing but the driver's own transport (never a channel send, lock or timer whose completion is up to a consumer); L3 on the caller side every send / recv / await "
                "on a channel is propagated with `?`, matched into an Err return or (finish only) logged - never unwrapped, never retried; "
                "L4 the request send (with `?`) precedes every await in the operation issue point; L5 the Unbind arm shuts the socket down "
                "and closes the sink before acknowledging, and the acknowledgement is sent for every non-Single operation; L6 the one-operation driver (StartTLS set-up) hands the connection back only on paths that have established that no reply is owed; L7 the transport wrapper's AsyncRead / AsyncWrite methods each delegate, per variant, to the same method of the wrapped stream (shutdown reaches the socket of every transport kind); L9 on every path of the request arm on which the operation is Unbind the driver loop is left, so the reply senders of operations still waiting are dropped. Not decided: "
@@ -126,6 +126,47 @@ def run(ctx):
         ctx.add('L2.write-error-returns-err', 'request', loc(n), ok, 'a failed socket write does not end the driver with Err')
     ctx.floor('L2', 'wire sends', len(wire), 1)
 
+    # ---- L2 the driver never waits, inside an arm, for anything but its own transport.  While an arm's body runs nothing else of
+    # the loop does: the socket is not read, requests are not taken, end of stream and a closed request channel go unnoticed.  The
+    # only futures an arm may await are therefore those of the transport the driver owns (the framed socket and the stream inside
+    # it: write, shutdown, close) - they complete or fail with the socket.  Awaiting anything whose completion is up to a user of
+    # the library - room in a bounded queue that a search consumer drains, a lock, a timer, another channel - lets one lagging
+    # consumer stall every pending operation.  (Sends on the unbounded item / oneshot reply channels are not futures: they cannot wait.)
+    fr_fields = [fl for v in f.items[C.driver_struct]['variants'] for fl in v['fields'] if fl['ty'].startswith('tokio_util::codec::framed::Framed<')]
+    transport_tys = set()
+    for fl in fr_fields:
+        transport_tys.add(fl['ty'])
+        inner = fl['ty'][len('tokio_util::codec::framed::Framed<'):]
+        depth, cut = 0, None
+        for i, ch in enumerate(inner):
+            if ch in '<(':
+                depth += 1
+            elif ch in '>)':
+                depth -= 1
+            elif ch == ',' and depth == 0:
+                cut = i
+                break
+        if cut is not None:
+            transport_tys.add(inner[:cut])
+    ctx.add('L2.arm-awaits-only-the-transport', 'transport field', '', len(fr_fields) == 1, 'expected one framed transport in the driver struct, found %d' % len(fr_fields))
+    n_aw = 0
+    for role, a in C.arms.items():
+        for arm in (a if isinstance(a, list) else [a]):
+            for n, c in walk(arm['body']):
+                if n['k'] != 'Await':
+                    continue
+                n_aw += 1
+                fut = hirq.peel_refs(n['e'])
+                recv = fut.get('recv') if fut['k'] == 'MethodCall' else (fut['args'][0] if fut['k'] == 'Call' and fut.get('args') else None)
+                on_transport = recv is not None and hirq.strip_refs(hirq.peel_refs(recv).get('ty') or '') in transport_tys
+                what = (callee_of(fut) or fut['k']) if fut['k'] in ('MethodCall', 'Call') else fut['k']
+                rty = hirq.strip_refs(hirq.peel_refs(recv).get('ty') or '') if recv is not None else ''
+                why = 'a channel send that waits for room in the queue: a consumer that lags behind' if 'tokio::sync::mpsc' in rty else 'something other than the driver\'s own transport'
+                ctx.add('L2.arm-awaits-only-the-transport', '%s|%s' % (role if isinstance(role, str) else 'other', what.rsplit('::', 2)[-2:] and '::'.join(what.rsplit('::', 2)[-2:])), loc(n), on_transport,
+                        'the %s arm of the driver loop awaits `%s` (%s) - until it completes the driver reads nothing from the socket, takes no request and does not notice end of stream: every other pending operation hangs with it'
+                        % (role if isinstance(role, str) else 'other', what, why))
+    ctx.floor('L2', 'awaits inside the select! arms', n_aw, 3)
+
     # ---- L3 / L4 caller side, decided on the enumerated paths of each caller body
     caller_bodies = [C.op_call_path]
     for suffix in ('::next_inner', '::finish_inner'):
@@ -176,7 +217,7 @@ def run(ctx):
     for p in [q for q in caller_bodies if q.endswith('::next_inner')]:
         B = hirq.Body(f, f.hir[p])
         outs, _I = sem.paths(f, B, result_combinators=True)
-        is_recv = lambda t: t[0] == 'call' and t[1].endswith('UnboundedReceiver::<T>::recv')
+        is_recv = lambda t: t[0] == 'call' and t[1].startswith('tokio::sync::mpsc::') and t[1].endswith('Receiver::<T>::recv')     # bounded or unbounded: recv() is None exactly when the channel is closed and drained
         def recv_result(v):
             if v[0] == 'await' and is_recv(v[1]):
                 return True
